@@ -1,6 +1,6 @@
 """C02 — every selected test runs once to one final result; unselected tests never run."""
 import vlib
-from props import common, disp, sched
+from props import common, mix, disp, sched
 
 THM = "NextestModel.Thm.C02"
 GEN = []
@@ -17,7 +17,7 @@ def proj(step):
     return step[1] + "|" + ";;".join(ems) + "|" + step[5]
 
 
-def run(seed, tier, replay=None):
+def run_p(seed, tier, replay=None):
     # dispatcher side
     r, items, model = disp.run_disp(seed, tier, 1000, 30000)
     violations = []
@@ -83,5 +83,9 @@ def _f7(v):
     # future-queue 0.4.0 drains a group's queue only when a member of that group completes: with unequal
     # threads-required inside one test group a parked member may never be created.
     return v.get("kind") == "never-started-mixed"
+
+
+def run(seed, tier, replay=None):
+    return mix.merge(run_p(seed, tier, replay), mix.check([mix.mon_once], seed, tier))
 
 KNOWN_MATCHERS = {"F7": _f7}
